@@ -11,6 +11,8 @@ RULES = {
     'C01.R4': 'inherited necessary conditions (shared rules): the evaluator tests mat·x - bias <= 0 (closed) and follows the label it computes; the elimination run between layers removes only Infeasible paths and never the last child of a decision',
     'C01.R3': 'precondition: its input dimension is asserted equal to dim before use and the running dimension is taken from its terminals',
 }
+CONTROL_REV = '078b142'  # thorough tier: the rules must still report the defects found (and since fixed) on the original tree
+CONTROLS = [('C01.R2', 'afftree_from_layers_generic#dim:Argmax'), ('C01.R2', 'afftree_from_layers_generic#dim:ClassChar')]
 FLOORS = {'C01.R1': 7, 'C01.R2': 7, 'C01.R3': 1, 'C01.R4': 13}
 EXPLANATION = ('C01 is the composition of C02 (apply_func/compose), C03 (elimination), C17 (schema trees) and the clause decided here: the distiller feeds each layer to the right '
                'generator with the right arguments and keeps its running dimension equal to the tree\'s output dimension.')
